@@ -155,8 +155,38 @@ def has_div(es):
     return any(rec(e) for e in es)
 
 
+QUANT = {"on": False}
+
+
+def check_quantified(hyps, goal, rlimit=None, want_model=True):
+    """Queries with genuinely quantified hypotheses (heap invariants): stage 1 refutes by E-matching only (MBQI off,
+    fast and decisive for `unsat`); only if that fails, stage 2 lets MBQI look for a model."""
+    STATS["queries"] += 1
+    for stage, (mbqi, rl) in enumerate(((False, rlimit or 8000000), (True, int(os.environ.get('PYVC_MBQI_RLIMIT', '12000000'))))):
+        s = z3.Solver()
+        s.set("rlimit", rl)
+        s.set("smt.mbqi", mbqi)
+        for h in hyps:
+            s.add(h)
+        s.add(z3.Not(goal))
+        t0 = time.time()
+        r = s.check()
+        dt = time.time() - t0
+        STATS["z3_time"] += dt
+        if r == z3.unsat:
+            STATS["z3"] += 1
+            return Verdict("unsat", "z3(e-matching)" if not mbqi else "z3(mbqi)", dt)
+        if r == z3.sat and mbqi:
+            return Verdict("sat", "z3(mbqi)", dt, model=s.model() if want_model else None)
+    return Verdict("unknown", "z3", dt, reason="not refuted by E-matching; MBQI found no model within the resource limit: %s" % s.reason_unknown())
+
+
 def check(hyps, goal, rlimit=None, want_model=True, use_cvc5=True, strings=False, seed=0):
     """Is `And(hyps) -> goal` valid?  unsat = discharged."""
+    if QUANT["on"]:
+        if isinstance(goal, bool):
+            goal = z3.BoolVal(goal)
+        return check_quantified([z3.BoolVal(h) if isinstance(h, bool) else h for h in hyps], goal, rlimit, want_model)
     STATS["queries"] += 1
     if isinstance(goal, bool):
         goal = z3.BoolVal(goal)
@@ -217,6 +247,8 @@ def satisfiable(hyps, rlimit=None, timeout_ms=None):
     STATS["queries"] += 1
     s = z3.Solver()
     s.set("rlimit", rlimit or RLIMIT_QUICK)
+    if QUANT["on"]:
+        s.set("smt.mbqi", False)  # pruning only: unknown keeps the path
     if timeout_ms:
         s.set("timeout", timeout_ms)
     for h in hyps:
